@@ -23,10 +23,11 @@ CONSTANTS SandboxSet, FuncSet,
           MaxWidth,     \* max children per crossing
           MaxNodes,     \* max crossings per tree
           Fits,         \* does the poison value fit the ABI's long?
-          Aborts,       \* subset of {"arg", "cbthrow", "cbret", "gthrow"}
+          Aborts,       \* subset of {"arg", "cbthrow", "cbret", "gthrow", "catch"} ("catch": callback
+                        \* bodies may catch the abort of an invocation they made and go on)
           StaleCalls    \* TRUE: the guest may also call an entry point that is not registered
 
-VARIABLES mstack,   \* frames [k, s, node, fn, saved, kids]
+VARIABLES mstack,   \* frames [k, s, node, fn, saved, kids, catches]
           tls,      \* thread-local "current sandbox" ("" = none)
           unw,      \* an abort is propagating
           aborted,  \* an abort was already injected in this tree
@@ -75,6 +76,10 @@ Bump == [mstack EXCEPT ![Len(mstack)].kids = @ + 1]
 HookEv(dir, kind, who, s) == [e |-> "hook", dir |-> dir, kind |-> kind, who |-> who, state |-> mts[s]]
 Toggle(s) == IF mts[s] = s THEN s \o "*" ELSE s
 
+\* does the frame on top of stk belong to a callback body that catches aborts?
+CatchTop(stk) == Len(stk) > 0 /\ stk[Len(stk)].k = "cb" /\ stk[Len(stk)].catches
+CaughtEv(stk) == [e |-> "caught", node |-> stk[Len(stk)].node]
+
 CanGrow == ~done /\ ~unw /\ nn < MaxNodes /\ Len(mstack) < MaxDepth /\
            (IF Len(mstack) > 0 THEN MTop.kids < MaxWidth ELSE TRUE)
 
@@ -84,32 +89,37 @@ InvokeEnter(s, poison) ==
   /\ (Len(mstack) = 0 => hist = <<>>)       \* one top-level invocation per tree
   /\ poison => ("arg" \in Aborts /\ ~aborted)
   /\ nn' = nn + 1
-  /\ hist' = Append(hist, [a |-> "inv", s |-> s, poison |-> poison])
   /\ LET node == nn + 1
-         begin == [e |-> "inv_begin", s |-> s, node |-> node, poison |-> poison] IN
+         begin == [e |-> "inv_begin", s |-> s, node |-> node, poison |-> poison]
+         h1 == Append(hist, [a |-> "inv", s |-> s, poison |-> poison]) IN
      IF poison /\ ~Fits
        THEN \* parameter conversion aborts after ACTION_IN; the scope exit runs ACTION_OUT
             /\ aborted' = TRUE
-            /\ unw' = (Len(mstack) > 0)
+            /\ unw' = (Len(mstack) > 0 /\ ~CatchTop(mstack))
+            /\ hist' = IF CatchTop(mstack) THEN Append(h1, [a |-> "caught"]) ELSE h1
             /\ mstack' = IF Len(mstack) > 0 THEN Bump ELSE mstack
             /\ mclosed' = Close(mclosed, s, "INVOKE", "tree_fn")
             /\ UNCHANGED <<tls, done>>
             /\ Emit(<<begin, HookEv("in", "INVOKE", "tree_fn", s), HookEv("out", "INVOKE", "tree_fn", s),
-                      [e |-> "inv_end", node |-> node, out |-> "abort", valok |-> TRUE]>>)
+                      [e |-> "inv_end", node |-> node, out |-> "abort", valok |-> TRUE]>> \o
+                    (IF CatchTop(mstack) THEN <<CaughtEv(mstack)>> ELSE <<>>))
        ELSE /\ aborted' = (aborted \/ poison)
+            /\ hist' = h1
             /\ mstack' = Append(IF Len(mstack) > 0 THEN Bump ELSE mstack,
-                                [k |-> "inv", s |-> s, node |-> node, fn |-> "tree_fn", saved |-> tls, kids |-> 0])
+                                [k |-> "inv", s |-> s, node |-> node, fn |-> "tree_fn", saved |-> tls, kids |-> 0,
+                                 catches |-> FALSE])
             /\ tls' = s
             /\ UNCHANGED <<unw, done, mclosed>>
             /\ Emit(<<begin, HookEv("in", "INVOKE", "tree_fn", s),
                       [e |-> "guest_run", node |-> node, cur |-> s, argok |-> TRUE]>>)
 
 \* the guest calls the entry it was given for callback f (on the sandbox it runs in)
-GuestCall(f) ==
+GuestCall(f, c) ==
   /\ CanGrow
   /\ Len(mstack) > 0 /\ MTop.k = "inv"
+  /\ c => ("catch" \in Aborts /\ f \in FuncSet /\ ~aborted)
   /\ nn' = nn + 1
-  /\ hist' = Append(hist, [a |-> "call", f |-> f])
+  /\ hist' = Append(hist, [a |-> "call", f |-> f, catch |-> c])
   /\ LET node == nn + 1
          call == [e |-> "guest_call", node |-> node, entry |-> f] IN
      IF f \notin FuncSet
@@ -118,7 +128,8 @@ GuestCall(f) ==
             /\ UNCHANGED <<tls, unw, aborted, done, mclosed, mts>>
             /\ Emit(<<call, [e |-> "guest_call_ret", node |-> node, out |-> "trap", valok |-> TRUE]>>)
        ELSE \* the interceptor resolves (tls.sandbox, key of the slot)
-            /\ mstack' = Append(Bump, [k |-> "cb", s |-> tls, node |-> node, fn |-> f, saved |-> tls, kids |-> 0])
+            /\ mstack' = Append(Bump, [k |-> "cb", s |-> tls, node |-> node, fn |-> f, saved |-> tls, kids |-> 0,
+                                       catches |-> c])
             /\ UNCHANGED <<tls, unw, aborted, done, mclosed>>
             /\ IF node % 2 = 1
                  THEN \* this callback body changes the transition state of its sandbox
@@ -180,22 +191,26 @@ GuestReturn ==
 \* an abort propagates: scope exits close every open crossing, innermost first
 Unwind ==
   /\ ~done /\ unw
-  /\ UNCHANGED <<hist, aborted, nn>>
+  /\ UNCHANGED <<aborted, nn>>
   /\ IF Len(mstack) = 0
        THEN /\ done' = TRUE /\ unw' = FALSE /\ mclosed' = NoClosed
-            /\ UNCHANGED <<mstack, tls>>
+            /\ UNCHANGED <<mstack, tls, hist>>
             /\ Emit(<<TimingEv(mclosed)>>)
      ELSE LET f == MTop IN
        IF f.k = "inv"
          THEN /\ mstack' = MPop
-              /\ tls' = f.saved
+              /\ tls' = f.saved                 \* the scope exit restores the previous sandbox on this path too
               /\ mclosed' = Close(mclosed, f.s, "INVOKE", "tree_fn")
-              /\ UNCHANGED <<unw, done>>
+              \* the callback body that made this invocation may catch the abort and go on
+              /\ unw' = ~CatchTop(MPop)
+              /\ hist' = IF CatchTop(MPop) THEN Append(hist, [a |-> "caught"]) ELSE hist
+              /\ UNCHANGED done
               /\ Emit(<<HookEv("out", "INVOKE", "tree_fn", f.s),
-                        [e |-> "inv_end", node |-> f.node, out |-> "abort", valok |-> TRUE]>>)
+                        [e |-> "inv_end", node |-> f.node, out |-> "abort", valok |-> TRUE]>> \o
+                      (IF CatchTop(MPop) THEN <<CaughtEv(MPop)>> ELSE <<>>))
          ELSE /\ mstack' = MPop
               /\ mclosed' = Close(mclosed, f.s, "CALLBACK", f.fn)
-              /\ UNCHANGED <<tls, unw, done>>
+              /\ UNCHANGED <<tls, unw, done, hist>>
               /\ Emit(<<HookEv("in", "CALLBACK", f.fn, f.s),
                         [e |-> "guest_call_ret", node |-> f.node, out |-> "unwound", valok |-> TRUE]>>)
 
@@ -211,7 +226,7 @@ CallTargets == FuncSet \cup (IF StaleCalls THEN {"stale"} ELSE {})
 
 MNext ==
   \/ (\E s \in SandboxSet, p \in BOOLEAN : InvokeEnter(s, p)) /\ UNCHANGED mts
-  \/ \E f \in CallTargets : GuestCall(f)
+  \/ \E f \in CallTargets, c \in BOOLEAN : GuestCall(f, c)
   \/ (\E h \in {"ok", "throw", "poison"} : CbReturn(h)) /\ UNCHANGED mts
   \/ GuestThrow /\ UNCHANGED mts
   \/ GuestReturn /\ UNCHANGED mts
